@@ -19,16 +19,20 @@ const FLAVOR: &str = if cfg!(feature = "full") { "default-features" } else { "no
 
 // alphabets (symbols may be several characters)
 const A_WRAP: &[&str] = &[" ", "a", "bc", "-", "\n", "é", "你", "d-e"];
-const A_WRAP_BIG: &[&str] = &[" ", "a", "bc", "-", "\n", "é", "你", "d-e", "\u{ad}", "\u{301}", "\u{200b}", "\u{a0}", "\r\n", "\t", "😂", "\x1b[31m", "\x1b[0m"];
-const A_ADVERSARIAL: &[&str] = &[" ", "a", "-", "\n", "\r", "\t", "é", "你", "\u{ad}", "\u{a0}", "\u{200b}", "\u{301}", "😂", "\x1b", "[", "]", "m", "\x07", "\\"];
-const A_ANSI: &[&str] = &["a", " ", "你", "\u{301}", "\x1b[31m", "\x1b[0m", "\x1b]8;;x\x1b\\", "\x1b]0;t\x07", "\x1b[", "\x1b", "m", "\\", "["];
-const A_WORDS: &[&str] = &[" ", "a", "b", "-", "\t", "\u{a0}", "\u{200b}", "\u{2060}", "你", "😂", "\u{ad}", "\n", "\x1b[31m", "\x1b[0m", ")", "é"];
-const A_WORD: &[&str] = &["a", "b", "-", "1", "你", "\u{301}", "é", "\x1b[31m", "\x1b[0m", "😂", "\u{200b}"];
-const A_INPLACE: &[&str] = &[" ", "a", "bc", "\n", "é", "你"];
-const A_DEDENT: &[&str] = &[" ", "\t", "a", "\n", "\r\n", "b"];
-const A_INDENT: &[&str] = &[" ", "\t", "a", "\n", "\r", "é"];
-const A_UNFILL: &[&str] = &[" ", "a", "\n", "\r\n", ">", "-", "*", "é", "\r"];
-const A_COLOUR_WORDS: &[&str] = &["ab", "c", "你好", "d-e", "fgh"];
+/// broad alphabet: every kind of character the properties quantify over, incl. characters whose UTF-8 encoding ends
+/// in 0xAD (中), non-space whitespace (tab, NBSP, U+3000), zero-width and combining characters, CR, and CSI/OSC
+/// sequences with final bytes at both ends of the @..~ range
+const A_BIG: &[&str] = &[" ", "a", "bc", "-", "\n", "é", "你", "中", "d-e", "\u{ad}", "\u{301}", "\u{200b}", "\u{a0}", "\u{3000}", "\r\n", "\r", "\t", "😂",
+    "\x1b[31m", "\x1b[0m", "\x1b[1~", "\x1b[@", "\x1b]8;;x\x1b\\"];
+const A_ADVERSARIAL: &[&str] = &[" ", "a", "-", "\n", "\r", "\t", "é", "你", "中", "\u{ad}", "\u{a0}", "\u{3000}", "\u{200b}", "\u{301}", "😂", "\x1b", "[", "]", "m", "~", "\x07", "\\"];
+const A_ANSI: &[&str] = &["a", " ", "你", "\u{301}", "\x1b[31m", "\x1b[0m", "\x1b[1~", "\x1b[@", "\x1b[?", "\x1b]8;;x\x1b\\", "\x1b]0;t\x07", "\x1b[", "\x1b", "m", "\\", "[", "\x7f", "?"];
+const A_WORDS: &[&str] = &[" ", "a", "b", "-", "\t", "\u{a0}", "\u{200b}", "\u{2060}", "你", "中", "😂", "😭", "\u{ad}", "\n", "\x1b[31m", "\x1b[0m", ")", "é", "\u{3000}"];
+const A_WORD: &[&str] = &["a", "b", "-", "1", "你", "\u{301}", "é", "\x1b[31m", "\x1b[0m", "\x1b[1~", "😂", "\u{200b}"];
+const A_INPLACE: &[&str] = &[" ", "a", "bc", "\n", "é", "你", "\r", "\t"];
+const A_DEDENT: &[&str] = &[" ", "\t", "a", "\n", "\r\n", "b", "\u{3000}"];
+const A_INDENT: &[&str] = &[" ", "\t", "a", "\n", "\r", "é", "\u{3000}"];
+const A_UNFILL: &[&str] = &[" ", "a", "\n", "\r\n", ">", "-", "*", "é", "\r", "/"];
+const A_COLOUR_WORDS: &[&str] = &["ab", "c", "你好", "d-e", "fgh", "-"];
 const VOCAB: &[&str] = &["a", "bb", "ccc", "dddd", "é", "ff"];
 
 fn widths_small() -> Vec<usize> {
@@ -88,6 +92,17 @@ impl Ctx {
             },
             check);
         self.reports.push(r);
+    }
+
+    /// core alphabet exhaustively + the broad alphabet exhaustively (shorter) + seeded random long texts over the broad alphabet
+    #[allow(clippy::too_many_arguments)]
+    fn wrap_suite<F>(&mut self, name: &str, clause: &str, alphabet: &'static [&'static str], len: u32, grid: Vec<Opts>, widths: Vec<usize>, big_len: u32, nrandom: u64, check: F)
+    where
+        F: Fn(&TextCase) -> Outcome + Sync,
+    {
+        self.text_grid(name, clause, alphabet, len, grid.clone(), widths.clone(), &check);
+        self.text_grid(&format!("{}.big_alphabet", name), &format!("{} (broad alphabet)", clause), A_BIG, big_len, grid.clone(), widths, &check);
+        self.text_random(&format!("{}.random", name), &format!("{} (long random texts, sampled)", clause), A_BIG, 40, nrandom, grid, &check);
     }
 
     fn strings<F>(&mut self, name: &str, clause: &str, alphabet: &'static [&'static str], len: u32, ns_n: Vec<usize>, auxes: Vec<&'static str>, check: F)
@@ -346,21 +361,12 @@ fn run_property(prop: &str, ctx: &mut Ctx) {
     let l = |q: u32, t: u32| if th { t } else { q };
     match prop {
         "C01" => {
-            ctx.text_grid("C01.wrap.slices", "every line = indent ++ in-order slice (++ inserted hyphen); only spaces / line endings skipped; borrowed when possible; fill = lines joined",
-                A_WRAP, l(4, 5), option_grid(true), widths_small(), props_wrap::c01_slices);
-            if th {
-                ctx.text_grid("C01.wrap.slices.big_alphabet", "same, adversarial alphabet", A_WRAP_BIG, 3, option_grid(true), widths_small(), props_wrap::c01_slices);
-                ctx.text_random("C01.wrap.slices.random", "same, long random texts", A_WRAP_BIG, 40, 200_000, option_grid(true), props_wrap::c01_slices);
-            } else {
-                ctx.text_grid("C01.wrap.slices.big_alphabet", "same, adversarial alphabet", A_WRAP_BIG, 2, option_grid(true), widths_small(), props_wrap::c01_slices);
-            }
+            ctx.wrap_suite("C01.wrap.slices", "every line = indent ++ in-order slice (++ inserted hyphen); only spaces / line endings skipped; borrowed when possible; no trailing space; fill = lines joined",
+                A_WRAP, l(4, 5), option_grid(true), widths_small(), l(2, 3), if th { 300_000 } else { 40_000 }, props_wrap::c01_slices);
         }
         "C02" => {
-            ctx.text_grid("C02.wrap.first_fit_fits", "first-fit: line width <= width unless the part after the indent is one unbreakable fragment",
-                A_WRAP, l(4, 5), first_fit_only(option_grid(false)), vec![0, 1, 2, 3, 4, 5, 6, 8], props_wrap::c02_fits);
-            if th {
-                ctx.text_random("C02.wrap.first_fit_fits.random", "same, long random texts", A_WRAP, 40, 200_000, first_fit_only(option_grid(false)), props_wrap::c02_fits);
-            }
+            ctx.wrap_suite("C02.wrap.first_fit_fits", "first-fit: line width <= width unless the part after the indent is one unbreakable fragment",
+                A_WRAP, l(4, 5), first_fit_only(option_grid(true)).into_iter().filter(|o| o.spl != Spl::Every2).collect(), vec![0, 1, 2, 3, 4, 5, 6, 8], l(2, 3), if th { 300_000 } else { 40_000 }, props_wrap::c02_fits);
         }
         "C03" => {
             #[cfg(feature = "full")]
@@ -369,6 +375,10 @@ fn run_property(prop: &str, ctx: &mut Ctx) {
                 frag_cases(ctx, "C03.optimal_fit.minimal_cost", "cost(returned) == min over all 2^(n-1) arrangements (documented cost model, exact integers) and <= cost(first-fit)",
                     l(4, 5), c03_optimal, true, pens);
                 frag_random(ctx, "C03.optimal_fit.minimal_cost.random", "same, random sequences", if th { 300_000 } else { 30_000 }, if th { 14 } else { 10 }, false, c03_optimal, true);
+                let grid: Vec<Opts> = option_grid(true).into_iter().filter(|o| o.algo == Algo::OptimalFit && !o.break_words).collect();
+                ctx.text_grid("C03.wrap.minimal_cost_text", "optimal-fit, no force-breaking: each paragraph's lines are a minimum-cost arrangement of its fragments for the widths actually rendered",
+                    &[" ", "a", "bc", "def", "é", "你", "g-h", "\x1b[31m"], l(4, 5), grid.clone(), vec![2, 3, 4, 5, 6, 8, 11], props_wrap::c03_text);
+                ctx.text_random("C03.wrap.minimal_cost_text.random", "same, longer random texts", &[" ", "a", "bc", "def", "é", "你", "g-h", "中文", "ijkl"], 16, if th { 200_000 } else { 30_000 }, grid, props_wrap::c03_text);
             }
         }
         "C04" => {
@@ -385,8 +395,8 @@ fn run_property(prop: &str, ctx: &mut Ctx) {
             }, false);
         }
         "C05" => {
-            ctx.text_grid("C05.wrap.shortcut", "fast path == slow path for wrap_single_line and fill; a paragraph that fits is returned as one line",
-                &[" ", "a", "bc", "é", "你", "\x1b[31m", "\n", "-"], l(4, 5), option_grid(false), vec![0, 1, 2, 3, 4, 5, 6, 7, 8, 10, 12, 16], props_wrap::c05_shortcut);
+            ctx.wrap_suite("C05.wrap.shortcut", "fast path == slow path for wrap_single_line and fill; a paragraph that fits is returned as one line",
+                &[" ", "a", "bc", "é", "你", "\x1b[31m", "\n", "-", "\t"], l(4, 5), option_grid(false), vec![0, 1, 2, 3, 4, 5, 6, 7, 8, 10, 12, 16], l(2, 3), if th { 300_000 } else { 40_000 }, props_wrap::c05_shortcut);
         }
         "C06" => {
             frag_cases(ctx, "C06.first_fit.partition", "lines are non-empty contiguous runs concatenating to the input; empty input -> one empty line", l(4, 5), c06_first_fit, false, vec![DEFAULT_PEN]);
@@ -400,21 +410,21 @@ fn run_property(prop: &str, ctx: &mut Ctx) {
         "C07" => {
             frag_cases(ctx, "C07.first_fit.greedy", "a new line starts exactly when the line is non-empty and acc + width + penalty > line width", l(4, 5), c07_greedy, false, vec![DEFAULT_PEN]);
             frag_random(ctx, "C07.first_fit.greedy.random", "same, arbitrary finite f64", if th { 400_000 } else { 50_000 }, 16, true, c07_greedy, false);
-            ctx.text_grid("C07.wrap.greedy_text", "ASCII separator, no splitter, no force-breaking: wrap == the greedy rule applied to the space-delimited words",
-                A_WRAP, l(4, 5), first_fit_only(option_grid(false)), vec![0, 1, 2, 3, 4, 5, 6, 8], props_wrap::c07_text);
+            ctx.wrap_suite("C07.wrap.greedy_text", "ASCII separator, no splitter, no force-breaking: wrap == the greedy rule applied to the space-delimited words",
+                A_WRAP, l(4, 5), first_fit_only(option_grid(true)).into_iter().filter(|o| o.sep == Sep::Ascii && o.spl == Spl::None && !o.break_words).collect(), vec![0, 1, 2, 3, 4, 5, 6, 8], l(3, 3), if th { 300_000 } else { 40_000 }, props_wrap::c07_text);
         }
         "C08" => {
-            ctx.text_grid("C08.wrap.indent", "line 0 starts with initial_indent, later lines with subsequent_indent; remainder depends only on the indents' widths",
-                A_WRAP, l(4, 5), option_grid(true), widths_small(), props_wrap::c08_indent);
+            ctx.wrap_suite("C08.wrap.indent", "line 0 starts with initial_indent, later lines with subsequent_indent; remainder depends only on the indents' widths",
+                A_WRAP, l(4, 5), option_grid(true), widths_small(), l(2, 3), if th { 300_000 } else { 40_000 }, props_wrap::c08_indent);
         }
         "C09" => {
-            ctx.text_grid("C09.wrap.paragraphs", "wrap(a+E+b) begins with wrap(a); the rest does not depend on a; fill = join; LF<->CRLF equivariance",
-                &[" ", "a", "bc", "\n", "é", "-"], l(5, 6), option_grid(false), vec![0, 1, 2, 3, 5, 8], props_wrap::c09_paragraphs);
+            ctx.wrap_suite("C09.wrap.paragraphs", "wrap(a+E+b) begins with wrap(a); the rest does not depend on a; fill = join; LF<->CRLF equivariance",
+                &[" ", "a", "bc", "\n", "é", "-", "\t"], l(5, 6), option_grid(false), vec![0, 1, 2, 3, 5, 8], l(2, 3), if th { 300_000 } else { 40_000 }, props_wrap::c09_paragraphs);
             let mut g = option_grid(false);
             for o in g.iter_mut() {
                 o.crlf = true;
             }
-            ctx.text_grid("C09.wrap.paragraphs.crlf", "same with the CRLF line ending", &[" ", "a", "\r\n", "\n", "bc"], l(5, 6), g, vec![0, 1, 2, 3, 5], props_wrap::c09_paragraphs);
+            ctx.text_grid("C09.wrap.paragraphs.crlf", "same with the CRLF line ending", &[" ", "a", "\r\n", "\n", "bc", "\t"], l(5, 6), g, vec![0, 1, 2, 3, 5], props_wrap::c09_paragraphs);
         }
         "C10" => {
             let scope = format!("[{}] every Unicode scalar value (0x110000 code points in blocks of 256, surrogates skipped)", FLAVOR);
@@ -442,10 +452,7 @@ fn run_property(prop: &str, ctx: &mut Ctx) {
         }
         "C14" => {
             let grid: Vec<Opts> = option_grid(false).into_iter().filter(|o| o.initial.is_empty() && o.subsequent.is_empty()).collect();
-            ctx.text_grid("C14.fill.idempotent", "fill(fill(t)) == fill(t) under the stated conditions", A_WRAP, l(4, 5), grid.clone(), vec![1, 2, 3, 4, 5, 6, 8, 12], props_wrap::c14_idempotent);
-            if th {
-                ctx.text_random("C14.fill.idempotent.random", "same, long random texts", A_WRAP, 40, 300_000, grid, props_wrap::c14_idempotent);
-            }
+            ctx.wrap_suite("C14.fill.idempotent", "fill(fill(t)) == fill(t) under the stated conditions", A_WRAP, l(4, 5), grid, vec![1, 2, 3, 4, 5, 6, 8, 12], l(2, 3), if th { 300_000 } else { 40_000 }, props_wrap::c14_idempotent);
         }
         "C15" => {
             ctx.strings("C15.unfill.structural", "indents are prefixes made of prefix characters; no interior line break; line-ending detection", A_UNFILL, l(5, 6), vec![0], vec![""], c15_structural);
@@ -455,7 +462,7 @@ fn run_property(prop: &str, ctx: &mut Ctx) {
             refill_cases(ctx, "C16.refill", "refill(fill(t, o1), o2) == fill(t, o2 with o1's indents)", l(3, 4), c16_refill);
         }
         "C17" => {
-            ctx.strings("C17.fill_inplace", "same length; only ' ' -> '\\n'; lines == wrap with the documented options", A_INPLACE, l(6, 7), vec![0, 1, 2, 3, 4, 6, 9], vec![""], props_wrap::c17_inplace);
+            ctx.strings("C17.fill_inplace", "same length; only ' ' -> '\\n'; lines == wrap with the documented options", A_INPLACE, l(5, 6), vec![0, 1, 2, 3, 4, 6, 9], vec![""], props_wrap::c17_inplace);
         }
         "C18" => {
             ctx.strings("C18.dedent", "removes exactly the longest common whitespace margin; idempotent; dedent(indent(s,p)) == dedent(s)", A_DEDENT, l(7, 8), vec![0], vec![""], c18_dedent);
@@ -486,6 +493,8 @@ fn replay(path: &str) -> i32 {
             "C02.wrap.first_fit_fits" => props_wrap::c02_fits(&TextCase::from_json(case)),
             #[cfg(feature = "full")]
             "C03.optimal_fit.minimal_cost" => c03_optimal(&FragCase::from_json(case)),
+            #[cfg(all(feature = "full", fuzzing))]
+            "C03.wrap.minimal_cost_text" => props_wrap::c03_text(&TextCase::from_json(case)),
             "C04.total.public_api" => c04_total(&TextCase::from_json(case)),
             "C04.total.fragments" => {
                 let c = FragCase::from_json(case);
